@@ -12,7 +12,7 @@
 EXTENDS SqraOps
 
 CONSTANTS N, SH, Vs, Ks, Ds, Caps, Base, Bug
-   \* Bug: "none" | "hOtherOrder" | "volumeOfColumn" | "exponentSign" | "symmetricCap" | "lostHalf"
+   \* Bug: "none" | "asymmetricS" | "hOtherOrder" | "volumeOfColumn" | "exponentSign" | "symmetricCap" | "lostHalf"
 
 Cells == 0 .. (N - 1)
 (* default value sets (cfg files cannot write tuples or negative numbers) *)
@@ -49,8 +49,9 @@ OpData ==
                ELSE IF Bug = "lostHalf" THEN 2 * dk(e)
                ELSE dk(e)
       vol(e) == inst.V[(IF Bug = "volumeOfColumn" THEN ord[e][2] ELSE ord[e][1]) + 1]
+      sval(e) == IF Bug = "asymmetricS" /\ ord[e][1] > ord[e][2] THEN inst.S[ord[e]] + 1 ELSE inst.S[ord[e]]   \* one direction of a pair differs (the shape of the fold defect)
   IN [e \in 1 .. Len(ord) |->
-        RMul(RDiv(RDiv(R(inst.D * inst.S[ord[e]]), R(inst.h[hord[e]])), R(vol(e))), PowR(inst.base, Capped(ex(e), inst.cap)))]
+        RMul(RDiv(RDiv(R(inst.D * sval(e)), R(inst.h[hord[e]])), R(vol(e))), PowR(inst.base, Capped(ex(e), inst.cap)))]
 
 OpMatrix ==
   LET ord == RowMajor(inst.pat)
@@ -72,6 +73,10 @@ DetailedBalance == Built => \A p \in inst.pat :
    (inst.cap < 0 \/ (dk < inst.cap /\ -dk < inst.cap)) =>
       REq(RMul(RMul(R(inst.V[p[1] + 1]), PowR(inst.base, -2 * inst.k[p[1] + 1])), Q[p[1]][p[2]]),
           RMul(RMul(R(inst.V[p[2] + 1]), PowR(inst.base, -2 * inst.k[p[2] + 1])), Q[p[2]][p[1]]))
+(* C14: with a symmetric S/h the weight pi_i = V_i base^(-2 k_i) (Boltzmann x volume) is stationary: pi Q = 0 *)
+NoCapActive == inst.cap < 0 \/ \A p \in inst.pat : inst.k[p[1] + 1] - inst.k[p[2] + 1] < inst.cap
+StationaryIsBoltzmannVolume == (Built /\ NoCapActive) => \A j \in Cells :
+   RSumSeq([i \in 1 .. N |-> RMul(RMul(R(inst.V[i]), PowR(inst.base, -2 * inst.k[i])), Q[i - 1][j])])[1] = 0
 ShiftInvariant == Built => \A i, j \in Cells :
    REq(QFull(inst, i, j), QFull([inst EXCEPT !.k = [c \in 1 .. N |-> inst.k[c] + 1]], i, j))
 LinearInD == Built => \A i, j \in Cells :
